@@ -28,7 +28,7 @@ def run(ctx, res):
         relobs.obs_rel(ctx, res, args + ["-stream", str(S + k)], label, RULES)
     # F leg on the families whose shapes the rewrites look at (loops followed by X inside iterated bodies, atomic groups,
     # nested quantified groups): the rewritten program must equal the specification's prediction
-    fams = ["body3", "body3g", "atomseq", "alt2"] if ctx.tier == "quick" else ["body3", "body3g", "atomseq", "alt2", "grpq", "nested", "atom", "altseq", "seqalt"]
+    fams = ["body3", "body3g", "atomseq", "alt2", "altcat"] if ctx.tier == "quick" else ["body3", "body3g", "atomseq", "alt2", "altcat", "grpq", "nested", "atom", "altseq", "seqalt"]
     stride = 6 if ctx.tier == "quick" else 1
     findgen.gen_find(ctx, res, fams, [], "net", False, [97, 98, 99], 3, stride, ctx.seed % stride, "F-rewrite-shapes")
     findgen.gen_find(ctx, res, ["atomseq"], [], "net", False, [97, 98, 10], 4, 2 if ctx.tier == "quick" else 1, ctx.seed % 2 if ctx.tier == "quick" else 0, "F-atomic-lazy-len4")
